@@ -686,6 +686,10 @@ def main():
         src = emit_ep_fixture(fx)
         put(fx["mod"] + ".rs", src + "\n")
         mods.append((fx["mod"], fx["feature"]))
+    for which in ("a", "b"):
+        mod, feat, src = emit_overlap_fixture(which)
+        put(mod + ".rs", src)
+        mods.append((mod, feat))
     t = "//! GENERATED by kani/gen_fixtures.py — do not edit.\n"
     for m, feat in mods:
         t += "#[cfg(feature = \"%s\")]\npub mod %s;\n" % (feat, m)
@@ -1187,6 +1191,41 @@ def ep_fixtures():
     add("plain", [], "quick", migrate=False, reply=False)
     add("exec_sudo", ["exec", "sudo"], "thorough")
     return fxs
+
+
+
+# ====================================================================== programs that MUST be rejected (C05, wiring of the overlap check)
+def emit_overlap_fixture(which):
+    """A contract one of whose parts shares a wire name with another part.  The build of this group must FAIL with the
+    overlap panic of sylvia::utils::assert_no_intersection evaluated in the `const _` block of the wrapper's dispatch."""
+    mod = "fx_overlap_" + which
+    out = ["//! GENERATED by kani/gen_fixtures.py — do not edit.  `%s` MUST NOT compile: two parts publish the same name." % mod,
+           "#![allow(unused_imports, unused_variables, dead_code)]", "use crate::support::*;", "use cosmwasm_std::{Response, StdError};",
+           "use sylvia::ctx::{ExecCtx, InstantiateCtx, QueryCtx, SudoCtx};", ""]
+    if which == "a":
+        # contract [zeta, alpha] (declared out of order) vs interface [alpha, beta]: found only if the lists are sorted
+        out += ["pub mod oi {", "    use super::*;", "    #[sylvia::interface]", "    #[sv::custom(msg=cosmwasm_std::Empty, query=cosmwasm_std::Empty)]", "    pub trait Oi {",
+                "        type Error: From<StdError>;", "        #[sv::msg(exec)]", "        fn alpha(&self, ctx: ExecCtx) -> Result<Response, Self::Error>;",
+                "        #[sv::msg(exec)]", "        fn beta(&self, ctx: ExecCtx) -> Result<Response, Self::Error>;", "    }", "}", "",
+                "pub struct Ov;", "#[sylvia::contract]", "#[sv::error(Echo)]", "#[sv::messages(oi)]", "impl Ov {", "    pub const fn new() -> Self { Ov }",
+                "    #[sv::msg(instantiate)]", "    fn instantiate(&self, ctx: InstantiateCtx) -> Result<Response, Echo> { Err(Echo::Std) }",
+                "    #[sv::msg(exec)]", "    fn zeta(&self, ctx: ExecCtx) -> Result<Response, Echo> { Err(Echo::Std) }",
+                "    #[sv::msg(exec)]", "    fn alpha(&self, ctx: ExecCtx) -> Result<Response, Echo> { Err(Echo::Std) }", "}",
+                "impl oi::Oi for Ov {", "    type Error = Echo;", "    fn alpha(&self, ctx: ExecCtx) -> Result<Response, Echo> { Err(Echo::Std) }",
+                "    fn beta(&self, ctx: ExecCtx) -> Result<Response, Echo> { Err(Echo::Std) }", "}"]
+    else:
+        # two interfaces sharing a sudo name, the contract itself has no sudo message
+        for m, t in (("p1", "P1"), ("p2", "P2")):
+            out += ["pub mod %s {" % m, "    use super::*;", "    #[sylvia::interface]", "    #[sv::custom(msg=cosmwasm_std::Empty, query=cosmwasm_std::Empty)]", "    pub trait %s {" % t,
+                    "        type Error: From<StdError>;", "        #[sv::msg(sudo)]", "        fn shared_name(&self, ctx: SudoCtx, a: u64) -> Result<Response, Self::Error>;",
+                    "        #[sv::msg(sudo)]", "        fn only_%s(&self, ctx: SudoCtx) -> Result<Response, Self::Error>;" % m, "    }", "}", ""]
+        out += ["pub struct Ov;", "#[sylvia::contract]", "#[sv::error(Echo)]", "#[sv::messages(p1)]", "#[sv::messages(p2)]", "impl Ov {", "    pub const fn new() -> Self { Ov }",
+                "    #[sv::msg(instantiate)]", "    fn instantiate(&self, ctx: InstantiateCtx) -> Result<Response, Echo> { Err(Echo::Std) }", "}"]
+        for m, t in (("p1", "P1"), ("p2", "P2")):
+            out += ["impl %s::%s for Ov {" % (m, t), "    type Error = Echo;", "    fn shared_name(&self, ctx: SudoCtx, a: u64) -> Result<Response, Echo> { Err(Echo::Std) }",
+                    "    fn only_%s(&self, ctx: SudoCtx) -> Result<Response, Echo> { Err(Echo::Std) }" % m, "}"]
+    T_OBLIGATIONS.append(dict(name="%s.T.rejected" % mod, feature="g_overlap_" + which, props=["C05"], fixture=mod, tier="quick", expect_reject="overlaps"))
+    return mod, "g_overlap_" + which, "\n".join(out) + "\n"
 
 
 if __name__ == "__main__":
